@@ -35,7 +35,7 @@ ASSUMPTIONS = [
     "KF2 (rp2_jp without -g: default language ja has no templates) and KF3 (rp2_jp refuses -f together with -t) are recorded findings, keyed by country, options and error message",
 ]
 SETTINGS: Dict[str, Dict[str, Any]] = {
-    "quick": {"inputs": 5, "budget_s": 100, "minimums": {"cli_runs": 680, "nontrivial": 500, "inverted_cut_runs": 20, "runs_with_config_method_schedule": 36}, "required_tags": {"tag_country": list(COUNTRIES), "tag_filter": ["none", "from", "to", "from+to"]}},
+    "quick": {"inputs": 5, "budget_s": 100, "minimums": {"cli_runs": 500, "nontrivial": 400, "inverted_cut_runs": 20, "runs_with_config_method_schedule": 20, "runs_restricted_to_one_asset": 15}, "required_tags": {"tag_country": list(COUNTRIES), "tag_filter": ["none", "from", "to", "from+to"]}},
     "thorough": {"inputs": 32, "budget_s": 480, "minimums": {"cli_runs": 3000, "nontrivial": 2500, "inverted_cut_runs": 150, "runs_with_config_method_schedule": 150}, "required_tags": {"tag_country": list(COUNTRIES), "tag_filter": ["none", "from", "to", "from+to"]}},
 }
 SHAPES = ["all-types", "inverted-dates", "same-instant-transfer-then-sale", "many-lots+sold-in-thirds", "multi-asset-sparse", "fully-sold+income-only", "single-asset", "multi-asset", "sparse-years", "mixed-offsets"]
@@ -63,7 +63,9 @@ def all_types_history(rng: Any, asset: str = "AAA") -> Dict[str, Any]:
     for ttype in OUT_TYPES:
         t += timedelta(days=rng.randint(10, 120))
         source = rng.choice([r for r in b.rows if r["t"] == "IN"])
-        b.dispose(t, "0.5", rng.randint(50, 500), ttype=ttype, ex=source["ex"], ho="Pro_Bob", cfee="0.01" if ttype not in ("FEE",) else "0")
+        row = b.dispose(t, "0.5", rng.randint(50, 500), ttype=ttype, ex=source["ex"], ho="Pro_Bob", cfee="0.01" if ttype not in ("FEE",) else "0")
+        if ttype in ("GIFT", "SELL") and rng.random() < 0.7:
+            row["ffee"] = "0"  # the export values the crypto fee at 0.00: an explicit zero in an optional cell is a supplied value
     return b.done(rng, shuffle=True)
 
 
@@ -187,9 +189,12 @@ def _inverted_cut(hists: Dict[str, Any], window: Tuple[Optional[str], Optional[s
     return False
 
 
-def _run_tuple(ctx: Any, ws: Workspace, hists: Dict[str, Any], shape: str, tup: Tuple[str, Optional[str], Optional[str], str], window: Tuple[Optional[str], Optional[str]], prefix: str, input_seed: Any, ini_methods: Optional[Dict[int, str]] = None) -> None:
+def _run_tuple(ctx: Any, ws: Workspace, hists: Dict[str, Any], shape: str, tup: Tuple[str, Optional[str], Optional[str], str], window: Tuple[Optional[str], Optional[str]], prefix: str, input_seed: Any, ini_methods: Optional[Dict[int, str]] = None, only_asset: Optional[str] = None, config_assets: Optional[List[str]] = None) -> None:
     country, method, language, filt = tup
     args: List[str] = []
+    if only_asset:
+        args += ["-a", only_asset]
+        ctx.count("runs_restricted_to_one_asset")
     if method:
         args += ["-m", method]
     if language:
@@ -206,7 +211,7 @@ def _run_tuple(ctx: Any, ws: Workspace, hists: Dict[str, Any], shape: str, tup: 
     ctx.tag("tag_country", country)
     ctx.tag("tag_filter", filt)
     ctx.tag("tag_shape", shape)
-    case = {"shape": shape, "input_seed": input_seed, "hists": hists, "tuple": list(tup), "window": list(window), "prefix": prefix, "ini_methods": {str(k): v for k, v in (ini_methods or {}).items()}}
+    case = {"shape": shape, "input_seed": input_seed, "hists": hists, "tuple": list(tup), "window": list(window), "prefix": prefix, "ini_methods": {str(k): v for k, v in (ini_methods or {}).items()}, "only_asset": only_asset, "config_assets": config_assets}
     if ini_methods:
         ctx.count("runs_with_config_method_schedule")
     if _inverted_cut(hists, window):
@@ -239,7 +244,9 @@ def run_shard(ctx: Any) -> None:
     tuples = matrix()
     # per input: the whole option matrix, then 8 more runs with the method given as an [accounting_methods] schedule in the
     # config (us and generic accept several methods) x each filter kind; those are numbered len(tuples) .. len(tuples) + 7
-    work = [(i, k) for i in range(settings["inputs"]) for k in range(len(tuples) + 8)]
+    # ... and 6 runs restricted to one asset with -a (countries and filters in rotation), half of them with a config that also
+    # lists assets whose sheets are not in the file (-a makes them irrelevant)
+    work = [(i, k) for i in range(settings["inputs"]) for k in range(len(tuples) + 8 + 6)]
     mine = work[ctx.shard :: ctx.nshards]
     current: Optional[int] = None
     ws: Optional[Workspace] = None
@@ -260,6 +267,26 @@ def run_shard(ctx: Any) -> None:
                 ws = Workspace(ctx.scratch, f"in{i}")
                 ws.write(hists)
                 current = i
+            if k >= len(tuples) + 8:
+                j = k - len(tuples) - 8
+                country = COUNTRIES[(i + j) % len(COUNTRIES)]
+                arng = ctx.rng("one-asset", i, j)
+                tup = (country, arng.choice(COUNTRY_METHODS[country]), "en" if country == "jp" else None, ("none", "from", "to")[j % 3])
+                asset = arng.choice(sorted(hists))
+                ws_a = Workspace(ctx.scratch, f"in{i}-asset{j}")
+                try:
+                    listed = sorted(hists)
+                    if j % 2:
+                        # the file holds this asset's sheet only; the config still lists the others and one that never had a sheet
+                        listed = sorted(set(hists) | {"ZZZ"})
+                        ws_a.write({asset: hists[asset]}, config_assets=listed)
+                    else:
+                        ws_a.write(hists)
+                    windows = windows_for(ctx.rng("window", i, k), {asset: hists[asset]})
+                    _run_tuple(ctx, ws_a, hists, shape, tup, windows[tup[3]], "", i, only_asset=asset, config_assets=listed)
+                finally:
+                    ws_a.cleanup()
+                continue
             if k >= len(tuples):
                 j = k - len(tuples)
                 tup = (("us", "generic")[j % 2], None, None, ("none", "from", "to", "from+to")[j // 2])
@@ -312,8 +339,12 @@ def replay(ctx: Any, case: Dict[str, Any]) -> None:
     ws = Workspace(ctx.scratch, "replay")
     try:
         ini_methods = {int(k): v for k, v in (case.get("ini_methods") or {}).items()} or None
-        ws.write(case["hists"], accounting_methods=ini_methods)
-        _run_tuple(ctx, ws, case["hists"], case["shape"], tuple(case["tuple"]), tuple(case["window"]), case["prefix"], case["input_seed"], ini_methods=ini_methods)
+        only = case.get("only_asset")
+        if only and case.get("config_assets") and set(case["config_assets"]) != set(case["hists"]):
+            ws.write({only: case["hists"][only]}, config_assets=case["config_assets"])
+        else:
+            ws.write(case["hists"], accounting_methods=ini_methods)
+        _run_tuple(ctx, ws, case["hists"], case["shape"], tuple(case["tuple"]), tuple(case["window"]), case["prefix"], case["input_seed"], ini_methods=ini_methods, only_asset=only, config_assets=case.get("config_assets"))
     finally:
         ws.cleanup()
 
